@@ -9,6 +9,8 @@ TRUSTED_BASE = [
 ASSUMPTIONS = TRUSTED_BASE + [
     "per shape (E2, npart 1..3, all real values): the real _reverse_velocities of CP2K / TurtleMD / LAMMPS / GROMACS with file readers and writers replaced by recording stubs writes, to the requested output file, exactly what it read from the "
     "requested input except that every velocity component is negated (positions, box, atom names / ids kept). ASE's variant goes through ase.io and is covered by the bounded round trip only",
+    "proved (E1, any number of frames): _extract_frame of CP2K and TurtleMD writes exactly frame idx of the trajectory (read_xyz_file yields frame k as its k-th snapshot: reader contract; convert_snapshot splits one snapshot), once, overwriting the output; "
+    "LAMMPS' variant is the two-line read_lammpstrj(traj, idx, n) -> write_lammpstrj data flow covered by the bounded round trip",
     "ONLY swap_integer / swap_endian and the data flow above are decided deductively. Everything that goes through decimal text ({:15.9f}, astype(str), float()) or regular expressions is a BOUNDED stand-in: the real writer/reader pairs are run "
     "natively over a grid (atom counts 1..4 (>=2 for LAMMPS), magnitudes within the format width, id permutations, 3/9-component boxes, frame indices, both TRR byte orders and precisions, template key sets) and compared with "
     "the written values to the written precision",
@@ -23,7 +25,10 @@ BOUNDS = {"atoms": "1..4", "frames": "1..3", "templates": "handful of mdp / LAMM
 
 def jobs(tier):
     names = ["swap_integer_bv", "reverse_velocities_dataflow", "g96_roundtrip", "xyz_roundtrip", "lammpstrj_roundtrip", "trr_decode", "reverse_velocities", "mdp_template", "lammps_template", "cp2k_template"]
-    return [("py", {"name": n, "module": "props.C19", "fn": "run_clause", "clause": n}) for n in names]
+    js = [("py", {"name": n, "module": "props.C19", "fn": "run_clause", "clause": n}) for n in names]
+    js += [("e1", {"name": k, "registry": "contracts.engines_loops2", "key": k, "clause": "extracting frame idx of a multi-frame file writes exactly frame idx (one frame, each array in its own slot, output overwritten); nothing when idx does not exist", "cost": 1, "parallel": 2})
+           for k in ("CP2KEngine._extract_frame", "TurtleMDEngine._extract_frame")]
+    return js
 
 
 def _ob(name, bad, label="bounded", backend="cpython-grid", n=None):
